@@ -31,6 +31,10 @@ type BurstSpec struct {
 	Reconnect    bool  `json:"reconnect"`    // ... and come back from the same address with a fresh burst before the old handlers ended
 	HoldUs       int   `json:"holdUs"`
 	Noise        bool  `json:"noise"` // Peers()/Broadcast calls running beside the burst
+	// Stagger > 0: once the handlers are parked, some of them (1 + Stagger mod
+	// parked-1) are let go and end while the others stay; then every peer
+	// fires a second wave. The limits must hold across the two generations.
+	Stagger int `json:"stagger"`
 }
 
 // LimitCase is one fully expanded case of phase A.
@@ -90,6 +94,8 @@ func genLimitCase(rng *rand.Rand, idx int) LimitCase {
 				}
 			case 1, 2:
 				bs.AbandonEvery = 2 + rng.IntN(3)
+			case 5, 6:
+				bs.Stagger = 1 + rng.IntN(16)
 			case 3, 4:
 				for i := 0; i < n; i++ {
 					if rng.IntN(2) == 0 {
@@ -109,13 +115,15 @@ func genLimitCase(rng *rand.Rand, idx int) LimitCase {
 
 func phaseLimits(r *mon.Run) {
 	n := r.Pick(90, 700)
+	g := &guard{r: r, phase: "limit"}
 	for i := 0; i < n; i++ {
 		c := genLimitCase(r.RNG(0xA000+uint64(i)), i)
 		if i < 2 {
 			r.Sample(c)
 		}
-		runLimitCase(r, c)
+		g.run(func() { runLimitCase(r, c) })
 	}
+	g.done()
 	maxMu.Lock()
 	defer maxMu.Unlock()
 	r.Extra("max_concurrent_handlers_observed_by_limit", maxSeen)
@@ -273,7 +281,8 @@ func runLimitCase(r *mon.Run, c LimitCase) {
 		fire := func(la *liveAtt, m int) {
 			f := &fired{la: la, res: make(chan []limitlab.ReqResult, 1)}
 			pl := plansFor(bs, m)
-			go func() { f.res <- la.a.Burst(burstID, pl, 180*time.Second, release) }()
+			id := burstID
+			go func() { f.res <- la.a.Burst(id, pl, 180*time.Second, release) }()
 			fs = append(fs, f)
 			r.Count("limit.requests_sent", m)
 		}
@@ -383,6 +392,27 @@ func runLimitCase(r *mon.Run, c LimitCase) {
 			time.Sleep(us(bs.HoldUs) + 2*time.Millisecond)
 			r.Count("limit.halfopen_bursts", 1)
 		}
+		if bs.Stagger > 0 && E >= 2 && !bs.HalfOpen && len(bs.Disconnect) == 0 {
+			k := 1 + bs.Stagger%(E-1)
+			exits := node.CM.G.Snap().Exits
+			k = node.CM.G.ReleaseN(k)
+			node.CM.G.WaitFor(settleBound, func(s limitlab.GateSnapshot) bool { return s.Exits >= exits+int64(k) })
+			// the released handlers end (their slots are returned) while the
+			// rest stays parked; streams that were queued move up meanwhile
+			deadline := time.Now().Add(2 * time.Second)
+			for limitlab.HandlerGoroutines() > baseline+node.CM.G.Snap().Parked && time.Now().Before(deadline) {
+				time.Sleep(200 * time.Microsecond)
+			}
+			burstID += 100 // second generation: fresh tags
+			for i, la := range atts {
+				if la != nil {
+					fire(la, bs.M[i])
+				}
+			}
+			time.Sleep(us(bs.HoldUs) + time.Millisecond)
+			r.Count("limit.staggered_bursts", 1)
+			r.Count("limit.handlers_released_early", k)
+		}
 
 		letGo()
 		var results [][]limitlab.ReqResult
@@ -473,6 +503,8 @@ func runLimitCase(r *mon.Run, c LimitCase) {
 			ending = "disconnect"
 		case bs.AbandonEvery > 0:
 			ending = "abandon"
+		case bs.Stagger > 0:
+			ending = "staggered"
 		}
 		r.SetAdd("limit.handler_endings", ending)
 		if backpressure || drops > 0 || ending != "answer" {
